@@ -449,7 +449,7 @@ def setup():
     seen = set()
     for pid, spec in PROPS.items():
         for b in spec.get("builds", []):
-            key = json.dumps(b, sort_keys=True)
+            key = json.dumps(b, sort_keys=True, default=lambda o: "fn@%x" % id(o))
             if key not in seen:
                 seen.add(key)
                 jobs.append(b)
